@@ -174,7 +174,8 @@ CLAIMS["C36"] = {
             "their TopLevel variants) own FxHashMaps (hashbrown, outside CBMC's reach); the scheduler loop around run_hooks and SimBuilder wiring; the "
             "log-formatting branches (log_writer is None). The output channel is a CONTRACT DOUBLE of dfir_rs::util::unsync::mpsc (try_send appends and "
             "returns Ok) because the real channel is outside CBMC's reach (C16). Bounds: queue length <= 3 (<= 2 per input for merges), <= 3 hooks; "
-            "quick leaves out the four harnesses over 3 min (MergeOrderedHook with two non-empty inputs, TopLevelFoldHook with 2 items), which are in thorough.",
+            "quick leaves out the three MergeOrderedHook harnesses with two non-empty inputs (3-4 min each), which are in thorough; TopLevelFoldHook with 2 queued items "
+            "exceeds 15 min of CBMC and is in no tier (0 and 1 items are covered).",
     "technique": "contract-based verification: Kani bounded harness contracts on the real hook code (whole file extracted mechanically), havoc driver and havoc hooks as callee contracts",
     "design": "DESIGN.md §5 C36, §14",
 }
